@@ -1,7 +1,6 @@
 import Driver.Util
 open Lean Replicat Replicat.RateLimit
-namespace Driver
-
+namespace Driver.HRateLimit
 /-! requests `rate.*` (see DESIGN.md Appendix A).  Rationals cross the tie as `[numerator, denominator]`
 (normalised, denominator > 0) so that nothing is rounded. -/
 
@@ -144,4 +143,6 @@ def handleRateLimit (op : String) (j : Json) : Except String Json := do
       ("bytes_in_window", jrat (winBytes (·.tRel) t0 b obs)), ("allowed", jrat (L * (b - t0) + burst L 0 d))])
   | _ => throw s!"unknown op {op}"
 
-end Driver
+end Driver.HRateLimit
+
+def Driver.handleRateLimit := Driver.HRateLimit.handleRateLimit
